@@ -369,6 +369,7 @@ def run_job(spec, calls, twin=True):
     s2 = Session(spec, twin=True) if twin else None
     init = s.state()
     events, readable = [], []
+    twin_clean = True      # no solver step has yet run with the designated target active (the solver keeps memory: Broyden Jacobian, limit masks)
     for c in calls:
         same_start = s2 is not None and [struct.pack("<d", x) for x in s.knobs()] == [struct.pack("<d", x) for x in s2.knobs()] and s.flags() == s2.flags() \
             and s.ncalls == s2.ncalls
@@ -377,7 +378,9 @@ def run_job(spec, calls, twin=True):
             ev2 = s2.call(c)
             jt = spec["twin_target"] + 1
             # only when both optimizers entered the call in the same state: an earlier call with the target active legitimately separated them
-            if same_start and c["ev"] in ("Step", "Solve") and ev["rows"] and all(jt not in r["ta"] for r in ev["rows"]) and all(jt not in r["ta"] for r in ev2["rows"]):
+            if c["ev"] in ("Step", "Solve") and (any(jt in r["ta"] for r in ev["rows"]) or any(jt in r["ta"] for r in ev2["rows"]) or not ev["rows"]):
+                twin_clean = False
+            if twin_clean and same_start and c["ev"] in ("Step", "Solve") and ev["rows"] and all(jt not in r["ta"] for r in ev["rows"]) and all(jt not in r["ta"] for r in ev2["rows"]):
                 k1 = [[struct.pack("<d", x) for x in r["knobs"]] for r in ev["rows"]]
                 k2 = [[struct.pack("<d", x) for x in r["knobs"]] for r in ev2["rows"]]
                 ev["twin_same"] = (k1 == k2 and ev["out"] == ev2["out"])
